@@ -376,8 +376,8 @@ def _path_naming_input(ctx, esc, fi, node, it):
                         n += 1
                         pm = U.parents(f.node)
                         a0 = c.args[0] if c.args else None
-                        ok = ok and isinstance(a0, ast.Name) and any(
-                            isinstance(g, ast.If) and isinstance(g.test, ast.Name) and g.test.id == a0.id for g in U.ancestors(c, pm))
+                        from ..escape import guarded_truthy
+                        ok = ok and isinstance(a0, ast.Name) and guarded_truthy(f.node, a0.id, c)
             if ok and n:
                 return 'name parts are never empty (components filtered by truthiness / index fallback, C15-D3; header name used only `if filename`)'
     return None
